@@ -6,10 +6,13 @@ import sys
 def search_chunking(job):
     sys.path.insert(0, os.path.dirname(os.path.dirname(os.path.abspath(__file__))))
     from bounded import c05_iwa
-    for size in (0, 1, 65536 - 40, 65536, 65537, 131072):
+    for size in (0, 1, 65536 - 40, 65536, 65537, 131072, 200000):
         for rnd in (True, False):
             case = {"kind": "synthetic", "size": size, "seed": 1, "random": rnd}
-            r = c05_iwa.synthetic(case)
+            try:
+                r = c05_iwa.synthetic(case)
+            except Exception as e:  # noqa: BLE001  (struct.error, snappy errors ...: encoding a well-formed stream must not fail)
+                r = {"detail": f"synthetic stream of {size} {'incompressible' if rnd else 'zero'} bytes: re-encoding raised {type(e).__name__}: {e}"}
             if r and not r.get("ok"):
                 return {"violated": True, "detail": r["detail"], "job": {"custom": "replay_case", "case": case}}
     for cuts in ("empty-lead", "empty-trail", "empty-mid", "empty-seg", "many"):  # chunks that decompress to nothing
